@@ -82,6 +82,10 @@ def run_shard(shard):
     if kind == "misc":
         for src in FN.misc_programs():
             check_one(res, "misc", src)
+        for src in FN.placed_closure_programs():
+            check_one(res, "placed", src)
+        for src in FN.dup_keyword_programs():
+            check_one(res, "dupkw", src)
     elif kind == "sig":
         _, maxn, maxpos, maxkw, k, n = shard
         for i, (params, names, ret) in enumerate(FN.signatures(maxn)):
